@@ -1,4 +1,5 @@
 """C09 — literals denote their written values or are rejected (DESIGN §3 C09)."""
+import re
 from core import Rule
 from absint import Interp, Obj, Term, Variant, Panic, CannotEstablish
 import synq
@@ -344,11 +345,128 @@ def r09e(ctx, run):
                 run.ok(f.site(call["ln"]), "Expr::%s passes the new type on to `%s` (only structural presence tests on the way)" % (h, canon(call["a"][0])[:30]))
 
 
+def r09f(ctx, run):
+    """code generation materialises the literal's WRITTEN value: the IntLiteral arms of the function compiler and of the constant-data
+    builder are evaluated abstractly with a symbolic value n for every numeric type the literal can be given"""
+    import c08
+    CG = "codegen/src/compiler/functions.rs"
+    n = Term("n")
+
+    class LI(c08.I):
+        def __init__(self, nt):
+            c08.I.__init__(self)
+            self.nt = nt
+            self.funcs["MemFlags::trusted"] = lambda i, a: Term("trusted")
+            self.funcs["MemFlags::new"] = lambda i, a: Term("memflags")
+
+        def eval(self, e, env):
+            if e.get("k") == "index" and canon(e["e"]).startswith("self.tys["):
+                return self.nt
+            if e.get("k") == "field" and canon(e) == "self.builder.func":
+                return Term("func")
+            return c08.I.eval(self, e, env)
+
+        def default_method(self, recv, m, args, e):
+            if m in ("get_final_ty", "into_number_type", "unwrap"):
+                return recv
+            if isinstance(recv, Obj) and recv.name in ("self", "module") or isinstance(recv, Term):
+                if recv is not c08.BUILDER and m not in ("ins",):
+                    return Term(m, *args)
+            return c08.I.default_method(self, recv, m, args, e)
+    sfn = ctx.syn.fn("FunctionCompiler::compile_expr_with_args", CG)
+    arms = []
+    for m in synq.matches_on(sfn.body):
+        for h, p, g, b, arm in synq.match_table(m):
+            if h and h.endswith("Expr::IntLiteral"):
+                arms.append((p, b, arm))
+    if len(arms) != 1:
+        raise LookupError("Expr::IntLiteral arm in compile_expr_with_args: %d" % len(arms))
+    pat, body, arm = arms[0]
+    var = [x["n"] for x in walk(pat) if x.get("k") == "p_ident"][0]
+
+    def strip(t):
+        # Some(x) is x; look through the option wrapper only
+        return t
+
+    def uses_n_unextended(t):
+        """term builds the value from n through value-preserving steps only; returns (ok, why)"""
+        if t == n:
+            return True, ""
+        if isinstance(t, Term):
+            if t.op in ("as_i64", "as_u64", "as_u128", "as_i128") and len(t.args) == 1:
+                return uses_n_unextended(t.args[0])
+            if t.op == "iconst" and len(t.args) == 2:
+                return uses_n_unextended(t.args[1])
+            if t.op == "uextend" and len(t.args) == 2:
+                return uses_n_unextended(t.args[1])
+            if t.op == "sextend":
+                return False, "the written value (an unsigned 64-bit number) is SIGN-extended: literals >= 2^63 become negative"
+            if t.op == "ireduce":
+                return False, "the written value is truncated"
+            if t.op in ("load",) and len(t.args) >= 3:
+                return uses_n_unextended(t.args[2])
+            if t.op in ("symbol_value", "declare_data_in_func", "create_global_i128"):
+                for a in t.args:
+                    okk, why = uses_n_unextended(a)
+                    if okk:
+                        return True, ""
+                return False, "the data object is not built from the literal's value"
+        return False, "value is built as %s" % c08.fmt(t)[:80]
+    for cl, float_, signed in [("I8", False, True), ("I8", False, False), ("I16", False, True), ("I16", False, False), ("I32", False, True), ("I32", False, False),
+                               ("I64", False, True), ("I64", False, False), ("I128", False, True), ("I128", False, False), ("F32", True, True), ("F64", True, True)]:
+        nt = c08.numty(cl, float_, signed)
+        it = LI(nt)
+        env = {"self": Obj("self", builder=c08.BUILDER, tys=Term("tys"), loc=Term("loc"), ptr_ty=Term("ptr_ty"), module=Obj("module")), var: n, "expr": Term("expr")}
+        name = ("f" if float_ else ("i" if signed else "u")) + cl[1:]
+        try:
+            t = it.eval(body, env)
+        except (Panic, CannotEstablish) as c:
+            run.finding(sfn.qual, "literal:" + name, sfn.file, arm["ln"], "cannot establish how an integer literal of type %s is materialised: %s" % (name, getattr(c, "what", c)))
+            continue
+        if float_:
+            want_op = "f32const" if cl == "F32" else "f64const"
+            good = isinstance(t, Term) and t.op == want_op and len(t.args) == 1 and t.args[0] == Term("as_" + ("f32" if cl == "F32" else "f64"), n)
+            why = "must be %s(n as %s)" % (want_op, "f32" if cl == "F32" else "f64")
+        else:
+            good, why = uses_n_unextended(t)
+            if good and isinstance(t, Term) and t.op == "iconst":
+                good = isinstance(t.args[0], Variant) and t.args[0].last == cl
+                why = "iconst of type %s for a literal of type %s" % (c08.fmt(t.args[0]), name)
+            if good and cl == "I128" and isinstance(t, Term) and t.op in ("uextend", "load"):
+                good = isinstance(t.args[0], Variant) and t.args[0].last == "I128"
+                why = "128-bit literal materialised at type %s" % c08.fmt(t.args[0])
+        run.check(good, sfn.site(arm["ln"]), "literal of type %s -> %s" % (name, c08.fmt(t)[:70]), sfn.qual, "literal:" + name, sfn.file, arm["ln"],
+                  "an integer literal given type %s is materialised as %s: %s" % (name, c08.fmt(t)[:90], why))
+    # constant data (globals): (n as uW).to_{le,be}_bytes() with W = the type's width
+    cd = [f for f in ctx.syn.fns_in("codegen/src/compiler/mod.rs") + ctx.syn.fns_in(CG) if f.body is not None and any(
+        h and h.endswith("Expr::IntLiteral") and "to_le_bytes" in canon(b) for m in synq.matches_on(f.body) for h, p, g, b, arm in synq.match_table(m))]
+    if not cd:
+        raise LookupError("constant-data builder arm for Expr::IntLiteral")
+    f = cd[0]
+    for m in synq.matches_on(f.body):
+        for h, p, g, b, arm2 in synq.match_table(m):
+            if h and h.endswith("Expr::IntLiteral") and "to_le_bytes" in canon(b):
+                inner = [x for x in synq.matches_on(b)]
+                for h2, p2, g2, b2, a2 in synq.match_table(inner[0]):
+                    pc = canon(p2).replace(" ", "")
+                    mm = re.match(r"\((\d+),Endianness::(Little|Big)\)", pc)
+                    if not mm:
+                        continue
+                    w, en = int(mm.group(1)), mm.group(2)
+                    bc = canon(b2).replace(" ", "")
+                    good = ("as u%d)" % w).replace(" ", "") in bc.replace(" ", "") or ("asu%d)" % w) in bc
+                    good = good and (("to_le_bytes" in bc) == (en == "Little")) and (("to_be_bytes" in bc) == (en == "Big"))
+                    run.check(good, f.site(a2["ln"]), "constant data: %d-bit %s-endian literal = (n as u%d).to_%s_bytes()" % (w, en.lower(), w, "le" if en == "Little" else "be"),
+                              f.qual, "const-literal:%d:%s" % (w, en), f.file, a2["ln"],
+                              "a %d-bit literal in constant data must be written as (n as u%d).to_%s_bytes(); found %s" % (w, w, "le" if en == "Little" else "be", canon(b2)[:60]))
+
+
 def rules(ctx):
     return [
         Rule("R09.a", "escape tables of string and char literals equal the reference table and each other; default arm rejects", 27, r09a),
         Rule("R09.b", "integer literal lowering uses only checked parsing/arithmetic; every failure reports OutOfRangeIntLiteral", 12, r09b),
         Rule("R09.c", "get_max_int_size(T) = min(max(T), u64::MAX) for every width; users reject exactly values > max, tested against the type the literal is given", 17, r09c),
         Rule("R09.e", "weak-type replacement reaches the literals inside every transparent expression form unconditionally", 18, r09e),
+        Rule("R09.f", "code generation materialises the written value: iconst/fNNconst/data object built from n without sign extension or truncation; constant data at the type's width", 20, r09f),
         Rule("R09.d", "weak literal widening thresholds do not exceed the maximum of the type codegen gives weak ints", 6, r09d),
     ]
